@@ -22,6 +22,10 @@ type Event struct {
 	Policy *Policy `json:"policy,omitempty"`
 	Pod    *Pod    `json:"pod,omitempty"`
 	NS     *NS     `json:"namespace,omitempty"`
+	// WithIP (pod-add): the pod's first event already carries its address (informer re-list after a broken watch, or the
+	// daemon started after the pod); it is followed by one status-only update whose old and new objects differ in
+	// resourceVersion only. Otherwise: Add without address, then Update with the address.
+	WithIP bool `json:"first_event_has_ip,omitempty"`
 }
 
 // C15Case is the complete, replayable input of one case.
@@ -109,7 +113,7 @@ func genEvents(rng *rand.Rand, start *Cluster, o genOpts, n int) []Event {
 			}
 			p := genPod(rng, m, al, fmt.Sprintf("pe%d", len(evs)))
 			m.Pods = append(m.Pods, p)
-			evs = append(evs, Event{Kind: "pod-add", Pod: &p})
+			evs = append(evs, Event{Kind: "pod-add", Pod: &p, WithIP: rng.Intn(2) == 0})
 		case k < 12:
 			if len(m.Pods) == 0 {
 				continue
@@ -934,6 +938,19 @@ func stageEvent(e *env, m *Cluster, ev Event) (string, func() *panicInfo) {
 			_ = e.w.pods.Update(newAPI)
 			return "UpdatePod", func() *panicInfo { return guarded(func() { _ = e.pm.UpdatePod(oldAPI, newAPI) }) }
 		}
+		if ev.WithIP && ev.Pod.IP != "" {
+			m.Pods = append(m.Pods, *ev.Pod)
+			first, second := ev.Pod.toAPI(), ev.Pod.toAPI()
+			first.ResourceVersion, second.ResourceVersion = "1", "2"
+			_ = e.w.pods.Add(first)
+			_ = e.w.pods.Update(second)
+			return "UpdatePod", func() *panicInfo {
+				if pi := guarded(func() { _ = e.pm.AddPod(first) }); pi != nil {
+					return pi
+				}
+				return guarded(func() { _ = e.pm.UpdatePod(first, second) })
+			}
+		}
 		// a pod appears without an address first, then gets one
 		m.Pods = append(m.Pods, *ev.Pod)
 		pending := *ev.Pod
@@ -1196,6 +1213,9 @@ func evalC15Base(cs *C15Case) *c15Result {
 			callID := fmt.Sprintf("event:%d", k)
 			res.callOps[callID] = [2]int{e.ipsetCalls, e.iptCalls}
 			res.counters["events_"+ev.Kind]++
+			if ev.Kind == "pod-add" && ev.WithIP {
+				res.counters["events_pod-add_first_event_has_ip"]++
+			}
 			if j-i > 1 {
 				res.counters["events_delivered_with_cache_ahead"]++
 			}
